@@ -9,8 +9,9 @@ import (
 )
 
 type gen struct {
-	r    *sim.Rng
-	nval int
+	r        *sim.Rng
+	nval     int
+	patterns []string
 }
 
 func (g *gen) val() string {
@@ -235,6 +236,12 @@ func genC03(g *gen, c *sim.Case, tier string) {
 		keys = c03OddKeys
 	} else if r.Chance(1, 6) {
 		keys = c03PctKeys
+	} else if r.Chance(1, 25) {
+		// keys that differ only in leading slashes (known finding K1 on the Redis backend;
+		// a shadow model tells that aliasing from any other violation)
+		keys = []string{"a", "/a", "//a", "b"}
+		g.patterns = []string{"*", "a*", "/a", "a", "/*", "b"}
+		c.Knobs["slash_keys"] = 1
 	}
 	for i := 0; i < n; i++ {
 		task.Ops = append(task.Ops, g.seqOp(keys, false))
@@ -296,6 +303,9 @@ func (g *gen) seqOp(keys []string, withShortExpiry bool) sim.Op {
 		return op
 	default:
 		pat := c03Patterns[r.Intn(len(c03Patterns))]
+		if g.patterns != nil {
+			pat = g.patterns[r.Intn(len(g.patterns))]
+		}
 		for _, k := range keys {
 			// gobwas/glob lets "?" match the empty string, Redis does not: with the empty
 			// key in play "?" is outside the subset on which the two dialects agree
@@ -303,7 +313,7 @@ func (g *gen) seqOp(keys []string, withShortExpiry bool) sim.Op {
 				pat = "*"
 			}
 		}
-		return sim.Op{K: "list", S: pat}
+		return sim.Op{K: "list", S: pat, N: int64(sim.Pick(r, 0, 0, 1, 2, 3))}
 	}
 }
 
@@ -381,7 +391,7 @@ func genC06(g *gen, c *sim.Case, tier string) {
 			task.Ops = append(task.Ops, sim.Op{K: "create", S: k, V: g.val(), D: int64(sim.Pick(r, 0, time.Hour, 50*time.Millisecond))})
 		case 5:
 			// including literal patterns (a plain key is a legal pattern)
-			task.Ops = append(task.Ops, sim.Op{K: "list", S: sim.Pick(r, "*", "a*", "?", "a", "b", "c", k)})
+			task.Ops = append(task.Ops, sim.Op{K: "list", S: sim.Pick(r, "*", "a*", "?", "a", "b", "c", k), N: int64(sim.Pick(r, 0, 0, 1, 2, 3))})
 		case 6:
 			// guarded by a 1 s simulated deadline
 			task.Ops = append(task.Ops, sim.Op{K: "wait", S: k, N: 0, E: 1000 + int64(time.Second)})
